@@ -47,7 +47,7 @@ TRUSTED_EXTRA = ["harness/djv_wrap.cpp (--wrap=inflate region check and call cou
 # model regenerated from the C++ sources + its equality with the hand model (see props/_implgen.py)
 from props import _implgen
 LEAN_MODULES = LEAN_MODULES + _implgen.LEAN_MODULES
-THEOREMS = THEOREMS + _implgen.THEOREMS
+THEOREMS = THEOREMS + _implgen.THEOREMS_FOR[ID]
 ASSUMPTIONS = ASSUMPTIONS + _implgen.ASSUMPTIONS
 TRUSTED_EXTRA = TRUSTED_EXTRA + _implgen.TRUSTED_EXTRA
 TRANSLATORS = dict(globals().get("TRANSLATORS", {}), **_implgen.TRANSLATORS)
